@@ -23,6 +23,7 @@ const (
 	clsMARKTOK  // a redaction marker followed by a token byte: E2 80 {B9,BA} {01..08}
 	clsMARK2    // marker, printable byte, marker: E2 80 {B9,BA} c E2 80 {B9,BA}
 	clsNEARMARK // a rune next to the markers: E2 80 {B8,BB} (U+2038, U+203B)
+	clsTOKMARK2 // token byte, marker, printable byte, marker, token byte (9 bytes)
 )
 
 // templated classes have a fixed shape: per position either a constant or a set of values
@@ -30,6 +31,7 @@ var classTemplates = map[int][][]byte{
 	clsMARKTOK:  {{0xe2}, {0x80}, {0xb9, 0xba}, {1, 2, 3, 4, 5, 6, 7, 8}},
 	clsMARK2:    {{0xe2}, {0x80}, {0xb9, 0xba}, nil, {0xe2}, {0x80}, {0xb9, 0xba}},
 	clsNEARMARK: {{0xe2}, {0x80}, {0xb8, 0xbb}},
+	clsTOKMARK2: {{1, 2, 3, 4, 5, 6, 7, 8}, {0xe2}, {0x80}, {0xb9, 0xba}, nil, {0xe2}, {0x80}, {0xb9, 0xba}, {1, 2, 3, 4, 5, 6, 7, 8}},
 }
 
 func (in *Interp) classByte(cls int, b *Term) *Term {
